@@ -301,7 +301,7 @@ def exit_common(it, wld, fn, prop):
 # ---------------------------------------------------------------------------------------------
 def t_record_failure(it, member_index=None):
     """C06 (CLOSED) and C07 (OPEN / HALF_OPEN) triples of record_failure, one class member per task."""
-    install(it, "C06")
+    install(it, None)
     tree = it.tree
     fn = KEY + ".record_failure"
 
@@ -319,46 +319,46 @@ def t_record_failure(it, member_index=None):
         it.path.ghost["replay_op"], it.path.ghost["replay_klass"] = "record_failure", k
         r = call_catch(it, BoundV(wld.obj, FuncV(tree.func(fn))), [klass])
         if r[0] == "exc":
-            it.path.oblige(f"{fn}/raises/none", False, prop="C06")
+            it.path.oblige(f"{fn}/raises/none", False, prop=None)
             return
         res = r[1]
         now = it.path.ghost["now"]
         o = wld.obj.fields
-        prop = "C06" if state == "CLOSED" else "C07"
+        prop = None  # breaker triples are contract clauses: they count for every property whose check uses the breaker
         it.path.oblige(f"{fn}/ensures/one-clock-read", it.path.ghost.get("clock_reads", 0) == 1, prop=prop)
         exit_common(it, wld, fn, prop)
         res_none = T(it.is_none(res))
         res_opened = T(it.eq(res, "circuit_opened")) if res is not None else z3.BoolVal(False)
         res_opened = res_opened if not isinstance(res_opened, Sym) else res_opened.t
         if state == "OPEN":
-            it.path.oblige(f"{fn}/OPEN/unchanged", wld.unchanged(), prop="C07")
-            it.path.oblige(f"{fn}/OPEN/result-none", res_none, prop="C07")
+            it.path.oblige(f"{fn}/OPEN/unchanged", wld.unchanged(), prop=None)
+            it.path.oblige(f"{fn}/OPEN/result-none", res_none, prop=None)
             it.path.cover(f"{fn}/OPEN")
             return
         if state == "HALF_OPEN":
             # every class re-opens, also outside trip_on
-            it.path.oblige(f"{fn}/HALF_OPEN/reopens", wld.state_is("OPEN"), prop="C07")
-            it.path.oblige(f"{fn}/HALF_OPEN/fresh-timeout", wld.opened_eq(o["_opened_at"], Sym(now, "real")), prop="C07")
-            it.path.oblige(f"{fn}/HALF_OPEN/probe-cleared", z3.Not(T(it.truth(o["_probe_in_flight"]))), prop="C07")
-            it.path.oblige(f"{fn}/HALF_OPEN/history-empty", wld.history_cleared(), prop="C07")
-            it.path.oblige(f"{fn}/HALF_OPEN/result", res_opened, prop="C07")
+            it.path.oblige(f"{fn}/HALF_OPEN/reopens", wld.state_is("OPEN"), prop=None)
+            it.path.oblige(f"{fn}/HALF_OPEN/fresh-timeout", wld.opened_eq(o["_opened_at"], Sym(now, "real")), prop=None)
+            it.path.oblige(f"{fn}/HALF_OPEN/probe-cleared", z3.Not(T(it.truth(o["_probe_in_flight"]))), prop=None)
+            it.path.oblige(f"{fn}/HALF_OPEN/history-empty", wld.history_cleared(), prop=None)
+            it.path.oblige(f"{fn}/HALF_OPEN/result", res_opened, prop=None)
             it.path.cover(f"{fn}/HALF_OPEN")
             return
         # ---- CLOSED
         in_trip = wld.in_trip(k)
         if not it.path.branch(in_trip):
-            it.path.oblige(f"{fn}/CLOSED/not-in-trip_on/unchanged", wld.unchanged(), prop="C06")
-            it.path.oblige(f"{fn}/CLOSED/not-in-trip_on/result-none", res_none, prop="C06")
+            it.path.oblige(f"{fn}/CLOSED/not-in-trip_on/unchanged", wld.unchanged(), prop=None)
+            it.path.oblige(f"{fn}/CLOSED/not-in-trip_on/result-none", res_none, prop=None)
             it.path.cover(f"{fn}/CLOSED/not-in-trip_on")
             return
         arr0, lo0, hi0 = wld.pre["f"]
         f = o["_failures"]
         p = wld.lo_at_append.get(id(wld.failures))
         if p is None:
-            it.path.oblige(f"{fn}/CLOSED/counted-failure-appended", False, prop="C06")
+            it.path.oblige(f"{fn}/CLOSED/counted-failure-appended", False, prop=None)
             return
         cutoff = now - wld.w
-        it.path.oblige(f"{fn}/CLOSED/prune-is-split-point", split_point(arr0, wld.pre["c_f"], p, hi0, cutoff), prop="C06")
+        it.path.oblige(f"{fn}/CLOSED/prune-is-split-point", split_point(arr0, wld.pre["c_f"], p, hi0, cutoff), prop=None)
         count = hi0 - p + 1  # counted failures since the last transition that are inside the window, incl. this one
         thr_def = wld.cthr_defined(k)
         none0, d0, snap = wld.pre["buckets"][k]
@@ -366,10 +366,10 @@ def t_record_failure(it, member_index=None):
             pk = wld.lo_at_append.get(id(d0))
             if it.path.branch(thr_def):
                 if pk is None:
-                    it.path.oblige(f"{fn}/CLOSED/class-failure-appended", False, prop="C06")
+                    it.path.oblige(f"{fn}/CLOSED/class-failure-appended", False, prop=None)
                     return
                 it.path.oblige(f"{fn}/CLOSED/class-prune-is-split-point",
-                               split_point(snap[0], wld.pre["c"][id(d0)], pk, snap[2], cutoff), prop="C06")
+                               split_point(snap[0], wld.pre["c"][id(d0)], pk, snap[2], cutoff), prop=None)
                 count_k = snap[2] - pk + 1
             else:
                 count_k = z3.IntVal(0)
@@ -377,18 +377,18 @@ def t_record_failure(it, member_index=None):
             count_k = z3.IntVal(1)
         should_open = z3.Or(count >= wld.thr, z3.And(thr_def, count_k >= wld.cthr_val(k)))
         opened = wld.state_is("OPEN")
-        it.path.oblige(f"{fn}/CLOSED/opens-iff-threshold-reached", opened == should_open, prop="C06")
+        it.path.oblige(f"{fn}/CLOSED/opens-iff-threshold-reached", opened == should_open, prop=None)
         it.path.oblige(f"{fn}/CLOSED/stays-closed-otherwise", z3.Implies(z3.Not(should_open), wld.state_is("CLOSED")),
-                       prop="C06")
+                       prop=None)
         it.path.oblige(f"{fn}/CLOSED/opened=>fresh-timeout-empty-history",
                        z3.Implies(opened, z3.And(wld.opened_eq(o["_opened_at"], Sym(now, "real")), wld.history_cleared(),
-                                                 res_opened)), prop="C06")
+                                                 res_opened)), prop=None)
         i = z3.Int("i!r")
         it.path.oblige(f"{fn}/CLOSED/not-opened=>appended",
                        z3.Implies(z3.Not(opened), z3.And(
                            res_none, f.hi == hi0 + 1, f.lo == p, f.arr[hi0] == now,
-                           z3.ForAll([i], z3.Implies(z3.And(0 <= i, i < hi0), f.arr[i] == arr0[i])))), prop="C06")
-        it.path.oblige(f"{fn}/CLOSED/probe-untouched", T(it.truth(o["_probe_in_flight"])) == wld.pre["probe"], prop="C06")
+                           z3.ForAll([i], z3.Implies(z3.And(0 <= i, i < hi0), f.arr[i] == arr0[i])))), prop=None)
+        it.path.oblige(f"{fn}/CLOSED/probe-untouched", T(it.truth(o["_probe_in_flight"])) == wld.pre["probe"], prop=None)
         # other classes' buckets untouched unless the circuit opened
         conj = []
         for n in wld.members:
@@ -398,9 +398,9 @@ def t_record_failure(it, member_index=None):
             conj.append(z3.And(wld.bucket_none(n) == n0,
                                z3.Implies(z3.Not(n0), z3.And(dd.arr == sn[0], dd.lo == sn[1], dd.hi == sn[2]))))
         it.path.oblige(f"{fn}/CLOSED/not-opened=>other-buckets-untouched", z3.Implies(z3.Not(opened), z3.And(conj)),
-                       prop="C06")
+                       prop=None)
         it.path.oblige(f"{fn}/CLOSED/no-threshold=>no-bucket-created",
-                       z3.Implies(z3.And(z3.Not(thr_def), z3.Not(opened)), wld.bucket_none(k) == none0), prop="C06")
+                       z3.Implies(z3.And(z3.Not(thr_def), z3.Not(opened)), wld.bucket_none(k) == none0), prop=None)
         it.path.cover(f"{fn}/CLOSED/in-trip_on")
         if it.path.feasible(opened):
             it.path.cover(f"{fn}/CLOSED/opens")
@@ -411,7 +411,7 @@ def t_record_failure(it, member_index=None):
 
 
 def t_record_success(it):
-    install(it, "C07")
+    install(it, None)
     tree = it.tree
     fn = KEY + ".record_success"
 
@@ -422,29 +422,29 @@ def t_record_success(it):
         it.path.ghost["replay_op"] = fn.rsplit(".", 1)[1]
         r = call_catch(it, BoundV(wld.obj, FuncV(tree.func(fn))), [])
         if r[0] == "exc":
-            it.path.oblige(f"{fn}/raises/none", False, prop="C07")
+            it.path.oblige(f"{fn}/raises/none", False, prop=None)
             return
         res = r[1]
         o = wld.obj.fields
-        prop = "C06" if state == "CLOSED" else "C07"
+        prop = None  # breaker triples are contract clauses: they count for every property whose check uses the breaker
         it.path.oblige(f"{fn}/ensures/no-clock-read", it.path.ghost.get("clock_reads", 0) == 0, prop=prop)
         exit_common(it, wld, fn, prop)
         if state in ("CLOSED", "OPEN"):
             it.path.oblige(f"{fn}/{state}/changes-nothing", wld.unchanged(), prop=prop)
             it.path.oblige(f"{fn}/{state}/result-none", T(it.is_none(res)), prop=prop)
         else:
-            it.path.oblige(f"{fn}/HALF_OPEN/closes", wld.state_is("CLOSED"), prop="C07")
-            it.path.oblige(f"{fn}/HALF_OPEN/history-empty", wld.history_cleared(), prop="C07")
-            it.path.oblige(f"{fn}/HALF_OPEN/probe-cleared", z3.Not(T(it.truth(o["_probe_in_flight"]))), prop="C07")
-            it.path.oblige(f"{fn}/HALF_OPEN/opened_at-none", T(it.is_none(o["_opened_at"])), prop="C07")
-            it.path.oblige(f"{fn}/HALF_OPEN/result", T(it.eq(res, "circuit_closed")), prop="C07")
+            it.path.oblige(f"{fn}/HALF_OPEN/closes", wld.state_is("CLOSED"), prop=None)
+            it.path.oblige(f"{fn}/HALF_OPEN/history-empty", wld.history_cleared(), prop=None)
+            it.path.oblige(f"{fn}/HALF_OPEN/probe-cleared", z3.Not(T(it.truth(o["_probe_in_flight"]))), prop=None)
+            it.path.oblige(f"{fn}/HALF_OPEN/opened_at-none", T(it.is_none(o["_opened_at"])), prop=None)
+            it.path.oblige(f"{fn}/HALF_OPEN/result", T(it.eq(res, "circuit_closed")), prop=None)
         it.path.cover(f"{fn}/{state}")
 
     return h
 
 
 def t_record_cancel(it):
-    install(it, "C07")
+    install(it, None)
     tree = it.tree
     fn = KEY + ".record_cancel"
 
@@ -455,15 +455,15 @@ def t_record_cancel(it):
         it.path.ghost["replay_op"] = fn.rsplit(".", 1)[1]
         r = call_catch(it, BoundV(wld.obj, FuncV(tree.func(fn))), [])
         if r[0] == "exc":
-            it.path.oblige(f"{fn}/raises/none", False, prop="C07")
+            it.path.oblige(f"{fn}/raises/none", False, prop=None)
             return
         o = wld.obj.fields
-        prop = "C06" if state == "CLOSED" else "C07"
+        prop = None  # breaker triples are contract clauses: they count for every property whose check uses the breaker
         exit_common(it, wld, fn, prop)
         it.path.oblige(f"{fn}/ensures/no-clock-read", it.path.ghost.get("clock_reads", 0) == 0, prop=prop)
         it.path.oblige(f"{fn}/{state}/only-probe-may-change", wld.unchanged(except_probe=True), prop=prop)
         if state == "HALF_OPEN":
-            it.path.oblige(f"{fn}/HALF_OPEN/probe-cleared", z3.Not(T(it.truth(o["_probe_in_flight"]))), prop="C07")
+            it.path.oblige(f"{fn}/HALF_OPEN/probe-cleared", z3.Not(T(it.truth(o["_probe_in_flight"]))), prop=None)
         else:
             it.path.oblige(f"{fn}/{state}/unchanged", wld.unchanged(), prop=prop)
         it.path.oblige(f"{fn}/ensures/result-none", T(it.is_none(r[1])), prop=prop)
@@ -473,7 +473,7 @@ def t_record_cancel(it):
 
 
 def t_allow(it):
-    install(it, "C07")
+    install(it, None)
     tree = it.tree
     fn = KEY + ".allow"
 
@@ -484,39 +484,39 @@ def t_allow(it):
         it.path.ghost["replay_op"] = fn.rsplit(".", 1)[1]
         r = call_catch(it, BoundV(wld.obj, FuncV(tree.func(fn))), [])
         if r[0] == "exc":
-            it.path.oblige(f"{fn}/raises/none", False, prop="C07")
+            it.path.oblige(f"{fn}/raises/none", False, prop=None)
             return
         d = r[1]
         o = wld.obj.fields
         now = it.path.ghost["now"]
-        prop = "C06" if state == "CLOSED" else "C07"
+        prop = None  # breaker triples are contract clauses: they count for every property whose check uses the breaker
         exit_common(it, wld, fn, prop)
         it.path.oblige(f"{fn}/ensures/one-clock-read", it.path.ghost.get("clock_reads", 0) == 1, prop=prop)
         allowed = T(it.truth(d.fields["allowed"]))
         ev = d.fields["event"]
         dstate = d.fields["state"]
-        it.path.oblige(f"{fn}/ensures/decision-state-is-current", dstate.t == o["_state"].t, prop="C07")
+        it.path.oblige(f"{fn}/ensures/decision-state-is-current", dstate.t == o["_state"].t, prop=None)
         if state == "CLOSED":
-            it.path.oblige(f"{fn}/CLOSED/allowed", allowed, prop="C06")
-            it.path.oblige(f"{fn}/CLOSED/unchanged", wld.unchanged(), prop="C06")
-            it.path.oblige(f"{fn}/CLOSED/no-event", T(it.is_none(ev)), prop="C06")
+            it.path.oblige(f"{fn}/CLOSED/allowed", allowed, prop=None)
+            it.path.oblige(f"{fn}/CLOSED/unchanged", wld.unchanged(), prop=None)
+            it.path.oblige(f"{fn}/CLOSED/no-event", T(it.is_none(ev)), prop=None)
         elif state == "OPEN":
             opened0 = wld.pre["opened"].val.t
             elapsed = now - opened0 >= wld.rt
-            it.path.oblige(f"{fn}/OPEN/allowed-iff-timeout-elapsed", allowed == elapsed, prop="C07")
+            it.path.oblige(f"{fn}/OPEN/allowed-iff-timeout-elapsed", allowed == elapsed, prop=None)
             it.path.oblige(f"{fn}/OPEN/rejected=>unchanged-and-event",
-                           z3.Implies(z3.Not(allowed), z3.And(wld.unchanged(), T(it.eq(ev, "circuit_rejected")))), prop="C07")
+                           z3.Implies(z3.Not(allowed), z3.And(wld.unchanged(), T(it.eq(ev, "circuit_rejected")))), prop=None)
             it.path.oblige(f"{fn}/OPEN/admitted=>half-open-with-probe",
                            z3.Implies(allowed, z3.And(wld.state_is("HALF_OPEN"), T(it.truth(o["_probe_in_flight"])),
                                                       T(it.eq(ev, "circuit_half_open")),
-                                                      wld.opened_eq(o["_opened_at"], wld.pre["opened"]))), prop="C07")
+                                                      wld.opened_eq(o["_opened_at"], wld.pre["opened"]))), prop=None)
         else:
-            it.path.oblige(f"{fn}/HALF_OPEN/allowed-iff-no-probe", allowed == z3.Not(wld.pre["probe"]), prop="C07")
+            it.path.oblige(f"{fn}/HALF_OPEN/allowed-iff-no-probe", allowed == z3.Not(wld.pre["probe"]), prop=None)
             it.path.oblige(f"{fn}/HALF_OPEN/rejected=>unchanged-and-event",
-                           z3.Implies(z3.Not(allowed), z3.And(wld.unchanged(), T(it.eq(ev, "circuit_rejected")))), prop="C07")
+                           z3.Implies(z3.Not(allowed), z3.And(wld.unchanged(), T(it.eq(ev, "circuit_rejected")))), prop=None)
             it.path.oblige(f"{fn}/HALF_OPEN/admitted=>probe-set",
                            z3.Implies(allowed, z3.And(T(it.truth(o["_probe_in_flight"])), wld.unchanged(except_probe=True),
-                                                      T(it.is_none(ev)))), prop="C07")
+                                                      T(it.is_none(ev)))), prop=None)
         it.path.cover(f"{fn}/{state}")
         if it.path.feasible(allowed):
             it.path.cover(f"{fn}/{state}/allowed")
@@ -535,8 +535,8 @@ def t_state_property(it):
         wld = BreakerWorld(it)
         it.path.ghost["world"] = wld
         v = it.getattr_value(wld.obj, "state")
-        it.path.oblige(f"{fn}/ensures/returns-state", v.t == wld.obj.fields["_state"].t, prop="C07")
-        it.path.oblige(f"{fn}/ensures/unchanged", wld.unchanged(), prop="C07")
+        it.path.oblige(f"{fn}/ensures/returns-state", v.t == wld.obj.fields["_state"].t, prop=None)
+        it.path.oblige(f"{fn}/ensures/unchanged", wld.unchanged(), prop=None)
         locks.exit_obligations(it, wld.obj, wld.monitor, fn)
         it.path.cover(fn)
 
@@ -545,7 +545,7 @@ def t_state_property(it):
 
 def t_init(it):
     """__init__ establishes INV for every argument combination it accepts, and rejects the rest."""
-    install(it, "C06")
+    install(it, None)
     tree = it.tree
     fn = KEY + ".__init__"
 
@@ -566,24 +566,24 @@ def t_init(it):
         valid = z3.And(thr.t >= 1, w.t > 0, rt.t > 0,
                        z3.And([z3.Implies(cdef(n), cm.slots[n].val.t >= 1) for n in members]))
         if r[0] == "exc":
-            it.path.oblige(f"{fn}/raises/only-when-invalid", z3.Not(valid), prop="C06")
-            it.path.oblige(f"{fn}/raises/ValueError", it.lattice.isinstance_cond(r[1].cls_t, ValueError), prop="C06")
+            it.path.oblige(f"{fn}/raises/only-when-invalid", z3.Not(valid), prop=None)
+            it.path.oblige(f"{fn}/raises/ValueError", it.lattice.isinstance_cond(r[1].cls_t, ValueError), prop=None)
             it.path.cover(f"{fn}/raises")
             return
         b = r[1]
         o = b.fields
-        it.path.oblige(f"{fn}/ensures/valid-config", valid, prop="C06")
+        it.path.oblige(f"{fn}/ensures/valid-config", valid, prop=None)
         sc = tree.cls("redress.circuit:CircuitState")
-        it.path.oblige(f"{fn}/ensures/starts-closed", o["_state"].t == it.enum_const(sc, "CLOSED"), prop="C06")
-        it.path.oblige(f"{fn}/ensures/opened_at-none", T(it.is_none(o["_opened_at"])), prop="C06")
-        it.path.oblige(f"{fn}/ensures/no-probe", z3.Not(T(it.truth(o["_probe_in_flight"]))), prop="C06")
+        it.path.oblige(f"{fn}/ensures/starts-closed", o["_state"].t == it.enum_const(sc, "CLOSED"), prop=None)
+        it.path.oblige(f"{fn}/ensures/opened_at-none", T(it.is_none(o["_opened_at"])), prop=None)
+        it.path.oblige(f"{fn}/ensures/no-probe", z3.Not(T(it.truth(o["_probe_in_flight"]))), prop=None)
         f = o["_failures"]
-        it.path.oblige(f"{fn}/ensures/history-empty", z3.And(f.lo == f.hi, f.lo == 0), prop="C06")
+        it.path.oblige(f"{fn}/ensures/history-empty", z3.And(f.lo == f.hi, f.lo == 0), prop=None)
         cfm = o["_class_failures"]
-        it.path.oblige(f"{fn}/ensures/no-buckets", isinstance(cfm, dict) and not cfm, prop="C06")
+        it.path.oblige(f"{fn}/ensures/no-buckets", isinstance(cfm, dict) and not cfm, prop=None)
         it.path.oblige(f"{fn}/ensures/config-stored",
                        z3.And(term(o["_failure_threshold"]) == thr.t, term(o["_window_s"]) == w.t,
-                              term(o["_recovery_timeout_s"]) == rt.t), prop="C06")
+                              term(o["_recovery_timeout_s"]) == rt.t), prop=None)
         # trip_on' = (trip_on or default) U keys(class_thresholds) ; thresholds copied
         tset = o["_trip_on"]
         cstored = o["_class_thresholds"]
@@ -593,20 +593,20 @@ def t_init(it):
             given = trip.val.slots[n].t
             default = z3.BoolVal(n in ("TRANSIENT", "SERVER_ERROR"))
             expect = z3.Or(z3.If(trip.none, default, given), cdef(n))
-            it.path.oblige(f"{fn}/ensures/trip_on/{n}", tv == expect, prop="C06")
+            it.path.oblige(f"{fn}/ensures/trip_on/{n}", tv == expect, prop=None)
             if isinstance(cstored, EnumMap):
                 sv = cstored.slots.get(n)
                 if sv is None:
-                    it.path.oblige(f"{fn}/ensures/class-threshold-copied/{n}", z3.Not(cdef(n)), prop="C06")
+                    it.path.oblige(f"{fn}/ensures/class-threshold-copied/{n}", z3.Not(cdef(n)), prop=None)
                 elif isinstance(sv, SOpt):
                     it.path.oblige(f"{fn}/ensures/class-threshold-copied/{n}",
                                    z3.And(sv.none == z3.Not(cdef(n)), z3.Implies(cdef(n), sv.val.t == cm.slots[n].val.t)),
-                                   prop="C06")
+                                   prop=None)
                 else:
                     it.path.oblige(f"{fn}/ensures/class-threshold-copied/{n}",
-                                   z3.And(cdef(n), term(sv) == cm.slots[n].val.t), prop="C06")
+                                   z3.And(cdef(n), term(sv) == cm.slots[n].val.t), prop=None)
             else:
-                it.path.oblige(f"{fn}/ensures/class-threshold-copied/{n}", z3.Not(cdef(n)), prop="C06")
+                it.path.oblige(f"{fn}/ensures/class-threshold-copied/{n}", z3.Not(cdef(n)), prop=None)
         it.path.oblige(f"{fn}/ensures/lock", isinstance(o["_lock"], LockV), prop="C17")
         it.path.cover(f"{fn}/normal")
 
@@ -633,13 +633,13 @@ def t_lemma_history(it):
         rec_open = z3.And(S2 == 1, t0b == t0, probe2 == probe)
         it.path.oblige("C07/history/open-window-rejects-and-preserves",
                        z3.Implies(z3.And(S == 1, Tm > 0, now < t0 + Tm, z3.Or(allow_open, rec_open)),
-                                  z3.And(S2 == 1, t0b == t0, z3.Implies(allow_open, z3.Not(allowed)))), prop="C07")
+                                  z3.And(S2 == 1, t0b == t0, z3.Implies(allow_open, z3.Not(allowed)))), prop=None)
         allow_half = z3.And(allowed == z3.Not(probe), z3.Implies(z3.Not(allowed), z3.And(S2 == 2, probe2 == probe)),
                             z3.Implies(allowed, z3.And(S2 == 2, probe2)))
         it.path.oblige("C07/history/one-probe-at-a-time",
-                       z3.Implies(z3.And(S == 2, probe, allow_half), z3.And(z3.Not(allowed), probe2, S2 == 2)), prop="C07")
+                       z3.Implies(z3.And(S == 2, probe, allow_half), z3.And(z3.Not(allowed), probe2, S2 == 2)), prop=None)
         it.path.oblige("C07/history/probe-slot-taken-by-admission",
-                       z3.Implies(z3.And(S == 2, z3.Not(probe), allow_half), z3.And(allowed, probe2)), prop="C07")
+                       z3.Implies(z3.And(S == 2, z3.Not(probe), allow_half), z3.And(allowed, probe2)), prop=None)
 
     return h
 
@@ -663,18 +663,18 @@ FUNCS = [KEY + "." + m for m in ("__init__", "allow", "record_success", "record_
                                  "_note_failure", "_prune", "_clear_failures", "state")]
 
 TASKS = [
-    Task("circuit.__init__", t_init, ["C06", "C17"], [KEY + ".__init__"]),
+    Task("circuit.__init__", t_init, ["C06", "C08", "C09", "C12", "C17"], [KEY + ".__init__"]),
 ] + [
-    Task(f"circuit.record_failure[{i}]", (lambda i: (lambda it: t_record_failure(it, i)))(i), ["C06", "C07", "C17"],
+    Task(f"circuit.record_failure[{i}]", (lambda i: (lambda it: t_record_failure(it, i)))(i), ["C06", "C07", "C08", "C09", "C12", "C17"],
          [KEY + ".record_failure", KEY + "._note_failure", KEY + "._prune", KEY + "._clear_failures"])
     for i in range(8)
 ] + [
-    Task("circuit.record_failure[members-covered]", lambda it: t_members_covered(it), ["C06", "C07"], []),
-    Task("circuit.record_success", t_record_success, ["C06", "C07", "C17"], [KEY + ".record_success", KEY + "._clear_failures"]),
-    Task("circuit.record_cancel", t_record_cancel, ["C06", "C07", "C17"], [KEY + ".record_cancel"]),
-    Task("circuit.allow", t_allow, ["C06", "C07", "C17"], [KEY + ".allow"]),
-    Task("circuit.state", t_state_property, ["C07", "C17"], [KEY + ".state"]),
-    Task("circuit.lemma.history", t_lemma_history, ["C07"], []),
+    Task("circuit.record_failure[members-covered]", lambda it: t_members_covered(it), ["C06", "C07", "C08", "C09", "C12"], []),
+    Task("circuit.record_success", t_record_success, ["C06", "C07", "C08", "C09", "C12", "C17"], [KEY + ".record_success", KEY + "._clear_failures"]),
+    Task("circuit.record_cancel", t_record_cancel, ["C06", "C07", "C08", "C09", "C12", "C17"], [KEY + ".record_cancel"]),
+    Task("circuit.allow", t_allow, ["C06", "C07", "C08", "C09", "C12", "C17"], [KEY + ".allow"]),
+    Task("circuit.state", t_state_property, ["C07", "C08", "C09", "C12", "C17"], [KEY + ".state"]),
+    Task("circuit.lemma.history", t_lemma_history, ["C07", "C08", "C09", "C12"], []),
 ]
 for _t in TASKS:
     _t.assumptions = ASSUME
